@@ -54,12 +54,19 @@ LibPageIs(p, e) ==
   /\ p.cropBox = (IF e.crop = 0 THEN <<>> ELSE CropBoxOf(e.crop))
   /\ p.rotate % 360 = (IF e.rot = 0 THEN 0 ELSE RotateOf(e.rot))
   /\ p.fonts = (IF e.res = 0 THEN <<>> ELSE <<FontKeyOf(e.res)>>)
+\* a page listed twice makes the tree inconsistent; what is returned then is "a truncated list": the pages in the order of
+\* their FIRST occurrence in document order, cut anywhere (a page may be reported again where it is listed again)
+RECURSIVE FirstOcc(_, _)
+FirstOcc(os, sn) == IF os = <<>> THEN <<>> ELSE IF os[1] \in sn THEN FirstOcc(Tail(os), sn) ELSE <<os[1]>> \o FirstOcc(Tail(os), sn \cup {os[1]})
+SharedOrderOK(P) == LET got == FirstOcc([x \in 1..Len(P.pages) |-> P.pages[x].obj], {}) IN
+                    Len(got) <= Len(Exp) /\ \A x \in 1..Len(got) : got[x] = NumOf(Exp[x].node)
 PresetOK(P) ==
   IF Well THEN /\ P.outcome = "value" /\ P.count = Len(Exp) /\ Len(P.pages) = Len(Exp)
                /\ \A x \in 1..Len(Exp) : LibPageIs(P.pages[x], Exp[x])
   ELSE /\ P.outcome \in {"value", "error"}
        \* whatever is returned for a malformed tree, a page that IS returned is one of the tree's pages, as it is
        /\ \A x \in 1..Len(P.pages) : P.pages[x].ok => \E y \in 1..Len(Exp) : LibPageIs(P.pages[x], Exp[y])
+       /\ (C.variant \in {"shared", "shared_up"} /\ P.outcome = "value" /\ (\A x \in 1..Len(P.pages) : P.pages[x].ok) => SharedOrderOK(P))
 TChkLib == /\ IsEvent("chk_lib") /\ phase = "done"
            /\ LET wrong == {nm \in {"default", "lenient", "strict"} : ~PresetOK(C.lib[nm])}
               IN IF wrong = {} THEN TRUE ELSE PrintT(<<"PROBLEMS", ToJson([idx |-> l, problems |-> wrong])>>) /\ FALSE
